@@ -1,6 +1,7 @@
 package c13
 
 import (
+	"errors"
 	"fmt"
 	"strings"
 
@@ -84,6 +85,12 @@ func (s *session) httpMatrix() []httpProbe {
 	return out
 }
 
+// isTimeout: the client gave up waiting (never a verdict).
+func isTimeout(err error) bool {
+	var t interface{ Timeout() bool }
+	return errors.As(err, &t) && t.Timeout()
+}
+
 func isCacheClass(c string) bool { return c != "/status" && c != "/metrics" && c != "/" }
 
 func (s *session) probeHTTP(phase string, c *client) {
@@ -99,7 +106,12 @@ func (s *session) probeHTTP(phase string, c *client) {
 			s.r.Sample(map[string]any{"configuration": cfg.String(), "protocol": "http", "method": p.Method, "path": p.Path, "credential": cs.Name, "phase": phase, "status": res.Status})
 		}
 		s.note("HTTP %s %s [%s] cred=%s phase=%s -> %d %v", p.Method, p.Path, p.Variant, cs.Name, phase, res.Status, res.Err)
-		cnt := func(outcome string) { s.count(fmt.Sprintf("http.%s.%s.%s", cfg.authName(), credClass(cs), outcome)) }
+		cnt := func(outcome string) {
+			s.count(fmt.Sprintf("http.%s.%s.%s", cfg.authName(), credClass(cs), outcome))
+			if s.life != nil {
+				s.count(fmt.Sprintf("life.%s.http.%s.%s", phase, cs.Name, outcome))
+			}
+		}
 		tuple := fmt.Sprintf("http|%s|%s|%s|%s", p.Method, p.Class, p.Variant, cs.Name)
 
 		det := func() map[string]any {
@@ -118,6 +130,7 @@ func (s *session) probeHTTP(phase string, c *client) {
 			if phase == "after-valid-login" && s.refusedBefore[tuple] {
 				failure += "-after-valid-login"
 			}
+			failure += phaseSuffix(phase)
 			return fmt.Sprintf("C13:http:%s:metrics-%s:%s", p.Class, onoff(cfg.Metrics), failure)
 		}
 
@@ -130,7 +143,7 @@ func (s *session) probeHTTP(phase string, c *client) {
 				s.dead = true
 				s.inconclusive(fmt.Sprintf("server %s went away at HTTP %s %s: %.300s", cfg, p.Method, p.Path, s.child.LogTail(300)))
 				return
-			case cs.Valid && cfg.TLS:
+			case cs.Valid && cfg.TLS && !isTimeout(res.Err):
 				cnt("transport-error")
 				s.violate(key("valid-refused"), "request with valid credentials failed below HTTP (TLS) while the server is up", det())
 			default:
